@@ -7,11 +7,20 @@ pub mod nd;
 pub mod spec;
 pub mod stubs;
 
+pub mod kinds;
+
 pub mod h_basic;
+pub mod h_leaf;
+
+/// `#[kani::proof]` wrappers for the harnesses selected by the runner
+/// (generated per build shard by /verif/check; see DESIGN.md §6).
+#[cfg(kani)]
+mod proofs;
 
 /// Native dispatch table: harness name → body.
 pub fn all_harnesses() -> Vec<(&'static str, fn())> {
     let mut v: Vec<(&'static str, fn())> = Vec::new();
     v.extend_from_slice(h_basic::HARNESSES);
+    v.extend_from_slice(h_leaf::HARNESSES);
     v
 }
